@@ -60,6 +60,7 @@ class Report:
         self.evidence_dir = evidence_dir or os.path.join(VERIF, "evidence")
         self.exhaustive = True
         self.not_decided = ""
+        self.floor_misses: List[tuple] = []
 
     # ------------------------------------------------------------ recording
     def rule(self, rid: str, text: str):
@@ -87,7 +88,7 @@ class Report:
     def floor(self, rule: str, what: str, count: int, minimum: int):
         self.floors.setdefault(rule, {})[what] = count
         if count < minimum:
-            self.undecided(rule, f"instance floor: found {count} {what}, expected at least {minimum} (anchor vanished or idiom not recognised)")
+            self.floor_misses.append((rule, f"instance floor: found {count} {what}, expected at least {minimum} (anchor vanished or idiom not recognised)"))
 
     def count(self, name: str, n):
         self.analysed[name] = self.analysed.get(name, 0) + n if isinstance(n, int) else n
@@ -103,6 +104,11 @@ class Report:
     def finish(self, selftest: Optional[dict] = None) -> int:
         known, fixed = load_known()
         viol = [o for o in self.obl if o.verdict == "violation"]
+        for rule, msg in self.floor_misses:
+            # a missing instance that is itself reported as a violation of the
+            # same rule is explained; otherwise the rule lost its anchor
+            if not any(o.rule == rule for o in viol):
+                self.undecided(rule, msg)
         matched, fresh = [], []
         kmap = {(k["property"], k["key"]): k for k in known}
         for o in viol:
